@@ -986,6 +986,41 @@ def arm_opentypes(res, case):
             return
     if any(isinstance(q, tuple) and q and q[0] == 'raised' for q in quiet):
         res.see('opentypes:some-quiet-calls-raised')
+    # (e) a caller-supplied openTypes= map is an argument like any other: ONE dict object handed to a sequence of calls
+    # against two schemas whose own maps disagree; every call must return what it returns with a fresh copy of the
+    # dict, and the dict must come back as it went in
+    import random
+    r2 = random.Random(U.case_hash(case))
+    rot = [(gg, tmap[(i + 1) % len(tmap)][1]) for i, (gg, t) in enumerate(tmap)]
+
+    def mk(which):
+        return c18.make_schema(container, govkind, shape, anytag, tmap if which == 'A' else rot)
+
+    def key(g):
+        return univ.ObjectIdentifier(g) if govkind == 'oid' else g
+    k0 = r2.randrange(len(tmap))
+    caller0 = {key(tmap[k0][0]): B.schema(tmap[k0][1])}
+    cm = dict(caller0)
+
+    def call2(schema, e, m):
+        def go():
+            d, rest = dec(e, asn1Spec=schema, openTypes=m)
+            return (d.prettyPrint(), rest)
+        return outcome_of(go)
+    seq = [(w, i) for w in 'AB' for i in range(len(encs))]
+    r2.shuffle(seq)
+    for w, i in seq:
+        got = call2(mk(w), encs[i], cm)
+        alone = call2(mk(w), encs[i], dict(caller0))
+        res.see('opentype-caller-map-comparisons')
+        if got != alone:
+            res.witness('outcome-differs-from-isolated-call:opentype-decode-with-callers-map', feats, case,
+                        'schema %s governing value #%d: shared map %r fresh map %r' % (w, i, repr(got)[:200], repr(alone)[:200]))
+            return
+        if set(cm) != set(caller0) or any(cm[k_] is not caller0[k_] for k_ in caller0):
+            res.witness('decode-changed-the-callers-openTypes-map', feats, case,
+                        'keys %r -> %r' % (sorted(map(str, caller0)), sorted(map(str, cm))))
+            return
     res.see('opentypes-ok')
 
 
